@@ -128,10 +128,27 @@ pub fn solve_milp_lp_problem_with(
         OptimizationType::Satisfy => OptimizationDirection::Minimize,
     };
     let mut problem = Problem::new(opt_type);
+    let mut negative_parts: Vec<Option<microlp::Variable>> = vec![None; variables.len()];
     for (i, var) in variables.iter().enumerate() {
         let var_domain = domain.get(var).unwrap();
         let coeff = objective[i];
         let added_var = match var_domain.get_type() {
+            // microlp 0.5 reports wrong verdicts (or does not terminate) when
+            // variables have no finite lower bound: such a variable is passed as
+            // the difference of two non-negative ones
+            VariableType::Real(min, max) if *min == f64::NEG_INFINITY => {
+                let positive = problem.add_var(coeff, (0.0, f64::INFINITY));
+                let negative = problem.add_var(-coeff, (0.0, f64::INFINITY));
+                if max.is_finite() {
+                    problem.add_constraint(
+                        [(positive, 1.0), (negative, -1.0)],
+                        ComparisonOp::Le,
+                        *max,
+                    );
+                }
+                negative_parts[i] = Some(negative);
+                positive
+            }
             VariableType::Real(min, max) => problem.add_var(coeff, (*min, *max)),
             VariableType::Boolean => problem.add_binary_var(coeff),
             VariableType::IntegerRange(min, max) => problem.add_integer_var(coeff, (*min, *max)),
@@ -159,11 +176,16 @@ pub fn solve_milp_lp_problem_with(
                 });
             }
         };
-        let microlp_coeffs = microlp_vars
+        let mut microlp_coeffs = microlp_vars
             .iter()
             .zip(coeffs.iter())
             .map(|(v, c)| (*v, *c))
             .collect::<Vec<_>>();
+        for (negative, c) in negative_parts.iter().zip(coeffs.iter()) {
+            if let Some(negative) = negative {
+                microlp_coeffs.push((*negative, -*c));
+            }
+        }
         problem.add_constraint(microlp_coeffs, microlp_comparison_type, rhs);
     }
 
@@ -179,11 +201,19 @@ pub fn solve_milp_lp_problem_with(
 
     match problem.solve_with(solve_options) {
         Ok(s) => {
+            let value_of = |index: usize| {
+                let positive = s.var_value(microlp_vars[index]);
+                match negative_parts[index] {
+                    Some(negative) => positive - s.var_value(negative),
+                    None => positive,
+                }
+            };
             let assignment = microlp_vars
                 .iter()
                 .zip(variables)
-                .map(|(v, name)| {
-                    let value = s.var_value(*v);
+                .enumerate()
+                .map(|(index, (_, name))| {
+                    let value = value_of(index);
                     let var_domain = domain.get(name).unwrap();
                     let value = match var_domain.get_type() {
                         VariableType::Real(_, _) | VariableType::NonNegativeReal(_, _) => {
@@ -198,7 +228,7 @@ pub fn solve_milp_lp_problem_with(
                     }
                 })
                 .collect();
-            let coeffs = microlp_vars.iter().map(|v| s.var_value(*v)).collect();
+            let coeffs = (0..microlp_vars.len()).map(value_of).collect();
             let constraints = make_constraints_map_from_assignment(lp, &coeffs);
             Ok(LpSolution::new(
                 assignment,
